@@ -112,6 +112,40 @@ def either_candidates(t):
     return st.sampled_from(base)
 
 
+# field types whose values are also valid input for the key type (same value domain, related classes):
+# an existing field value / typed list of the related type is a realistic thing to assign (copying between records)
+RELATED = {
+    "uri": ["string", "wstring", "uri"], "string": ["uri", "string"], "wstring": ["uri", "string"],
+    "filesize": ["varint", "unix_file_mode", "filesize"], "unix_file_mode": ["varint", "filesize"],
+    "varint": ["filesize", "unix_file_mode", "uint32", "varint"],
+    "net.tcp.Port": ["uint16", "net.udp.Port", "net.tcp.Port"], "net.udp.Port": ["uint16", "net.tcp.Port"],
+    "uint16": ["net.tcp.Port", "uint16"], "uint32": ["uint16", "uint32"],
+    "net.ipaddress": ["net.IPAddress", "net.ipaddress"], "net.IPAddress": ["net.ipaddress"],
+    "net.ipnetwork": ["net.IPNetwork"], "net.IPNetwork": ["net.ipnetwork"],
+    "boolean": ["boolean"], "float": ["float"], "bytes": ["bytes"], "datetime": ["datetime"], "digest": ["digest"],
+    "path": ["path"], "command": ["command"],
+}
+
+
+def shared_values(t, s_):
+    """Values valid for both field types."""
+    if {t, s_} <= {"uri", "string", "wstring"}:
+        return gen.uris()
+    if {t, s_} <= {"filesize", "unix_file_mode", "varint"}:
+        return gen.nonneg_ints()
+    if {t, s_} <= {"uint16", "net.tcp.Port", "net.udp.Port", "uint32", "varint"}:
+        return st.integers(0, 65535)
+    return valid_candidates(t).filter(lambda v: v is not None)
+
+
+def instance_candidates(t):
+    """A value that already is an instance of a (related) field type: M('ftinst', (source type, raw value))."""
+    srcs = RELATED.get(t)
+    if not srcs:
+        return None
+    return st.sampled_from(srcs).flatmap(lambda s_: shared_values(t, s_).map(lambda v: M("ftinst", (s_, v))))
+
+
 def candidate(t):
     """(class, value) for field type t (scalar or list form)."""
     if t.endswith("[]"):
@@ -119,6 +153,13 @@ def candidate(t):
         good = st.lists(valid_candidates(inner), max_size=3)
         alts = [good.map(lambda v: ("valid", v)), good.map(lambda v: ("valid", M("tuple", v))), st.just(("valid", None)),
                 st.just(("valid", []))]
+        if inner in RELATED:
+            # an existing typed list (possibly of a related element type), e.g. copied from another record's field
+            tl = st.sampled_from(RELATED[inner]).flatmap(
+                lambda s_: st.lists(shared_values(inner, s_), max_size=3).map(lambda vs: ("valid", M("typedlist", (s_, vs)))))
+            alts += [tl, tl]
+            inst = instance_candidates(inner)
+            alts.append(st.lists(inst, min_size=1, max_size=3).map(lambda v: ("valid", v)))
         rj = reject_candidates(inner)
         if rj is not None:
             alts.append(st.tuples(good, rj).map(lambda p: ("reject", p[0] + [p[1]])))
@@ -127,6 +168,8 @@ def candidate(t):
             alts.append(st.sampled_from([5, "abc", M("object", None)]).map(lambda v: ("either", v)))
         return st.one_of(*alts)
     alts = [valid_candidates(t).map(lambda v: ("valid", v))] * 3 + [st.just(("valid", None))]
+    if instance_candidates(t) is not None:
+        alts.append(instance_candidates(t).map(lambda v: ("valid", v)))
     if t == "record":
         return st.one_of(*alts)  # documented pass-through type: candidates are records and None
     rj = reject_candidates(t)
@@ -186,6 +229,10 @@ def build_candidate(v):
             return tuple(build_candidate(x) for x in v.p)
         if v.kind == "pyip":
             return _ip.ip_address(v.p)
+        if v.kind == "ftinst":
+            return ftype(v.p[0])(build_candidate(v.p[1]))
+        if v.kind == "typedlist":
+            return ftype(v.p[0] + "[]")([build_candidate(x) for x in v.p[1]])
         return gen.build_value(v)
     if isinstance(v, list):
         return [build_candidate(x) for x in v]
